@@ -53,6 +53,8 @@ fn maps() -> Vec<Beatmap> {
         // (lists long enough for a "last lookup" hint or a bisection cache to be worth keeping)
         many_points_map(72, 0),
         many_points_map(90, 1),
+        // #14: 2100 circles in repeating rhythm islands (3 fast, 2 slow): more than 2048 difficulty objects
+        MapSpec { repeat: 420, ..MapSpec::new(0, vec![o(Kind::Circle, 300, PosK::Far, 0, 0), o(Kind::Circle, 100, PosK::Near, 0, 0), o(Kind::Circle, 100, PosK::Far, 0, 0), o(Kind::Circle, 300, PosK::Near, 0, 0), o(Kind::Circle, 200, PosK::Far, 0, 0)]) }.decode(),
     ]
 }
 
@@ -177,7 +179,7 @@ impl World {
 fn jobs(len: usize) -> Vec<Vec<Step>> {
     let mut v: Vec<Vec<Step>> = Vec::new();
     // taiko with two different Random seeds, mania convert with Random and key mods, osu, plus gradual walks
-    let bases: Vec<(u8, u8, u8)> = vec![(0, 0, 0), (1, 1, 2), (1, 1, 3), (0, 3, 2), (0, 3, 4), (2, 3, 3), (0, 1, 1), (0, 2, 1), (5, 2, 5), (6, 2, 1), (7, 3, 0), (8, 3, 0), (9, 3, 4), (9, 3, 6), (11, 3, 0), (12, 1, 0), (13, 1, 1)];
+    let bases: Vec<(u8, u8, u8)> = vec![(0, 0, 0), (1, 1, 2), (1, 1, 3), (0, 3, 2), (0, 3, 4), (2, 3, 3), (0, 1, 1), (0, 2, 1), (5, 2, 5), (6, 2, 1), (7, 3, 0), (8, 3, 0), (9, 3, 4), (9, 3, 6), (11, 3, 0), (12, 1, 0), (13, 1, 1), (14, 0, 0)];
     for &(map, dst, s) in &bases {
         let mut a = vec![Step::Difficulty { map, dst, s }, Step::Performance { map, dst, s }, Step::Strains { map, dst, s }];
         a.truncate(len);
@@ -226,6 +228,7 @@ fn guard_jobs() -> Vec<Vec<Step>> {
         vec![Step::Difficulty { map: 10, dst: 1, s: 0 }, Step::Difficulty { map: 10, dst: 0, s: 1 }],
         twice(Step::Difficulty { map: 11, dst: 3, s: 0 }),
         twice(Step::Difficulty { map: 12, dst: 1, s: 0 }),
+        vec![Step::Difficulty { map: 14, dst: 0, s: 0 }, Step::Strains { map: 14, dst: 0, s: 1 }],
         vec![Step::Difficulty { map: 13, dst: 1, s: 1 }, Step::Strains { map: 13, dst: 1, s: 1 }],
         vec![Step::Strains { map: 11, dst: 3, s: 0 }, Step::Performance { map: 11, dst: 3, s: 0 }],
         vec![Step::ClonedPerformance { base: 0, s: 0 }, Step::ClonedPerformance { base: 1, s: 2 }],
@@ -347,7 +350,7 @@ fn main() {
         std::env::set_var("VERIF_NO_EVIDENCE", "1");
     }
     let ctx = Ctx::from_env("C20");
-    ctx.rule("(A) interference: every assignment of jobs (difficulty / performance / strains calls, gradual difficulty and gradual performance walks split into their steps; clones of one prepared calculator given different Difficulty values; taiko and mania conversions with two different Random seeds and key mods; shared &Beatmap) from a pool to T threads and every interleaving of the threads' calls (T=2 x 3 calls: 20 schedules per assignment; T=3 x 2 calls: 90; thorough T=3 x 3: 1680) executed on real OS threads under the baton scheduler; oracle = every call returns the value it returns when its thread runs alone, shared maps unchanged. (B) hand-over: every gradual calculator that is Send in this build (all of them in the `sync` build, which the default build runs as a child) is moved between T <= 3 threads at the step boundaries: all T^n ownership sequences, n <= 4 (quick) / 5, incl. create on one thread and drop on another; oracle = the single-thread sequence. (D) shared-access preemption: 26 jobs of two calls, all 351 unordered pairs on two real threads with the pages of the library's writable statics and of the shared Beatmap structs protected; scheduling points = thread start, call boundaries, every write to a guarded region, every read of a location some job writes; every choice vector with <= 2 preemptions, each execution in a fresh process; oracle = every call returns what it returns when its job runs alone in a fresh process, also when repeated sequentially after the concurrent run. (C) free-running: the (A) job bodies on 16 unsynchronised threads for a fixed number of rounds against the sequential table — sampling, reported separately under coverage.free_running and not part of the exhaustive claim; non-trivial = schedules with more than one thread / ownership sequences that change thread");
+    ctx.rule("(A) interference: every assignment of jobs (difficulty / performance / strains calls, gradual difficulty and gradual performance walks split into their steps; clones of one prepared calculator given different Difficulty values; taiko and mania conversions with two different Random seeds and key mods; shared &Beatmap) from a pool to T threads and every interleaving of the threads' calls (T=2 x 3 calls: 20 schedules per assignment; T=3 x 2 calls: 90; thorough T=3 x 3: 1680) executed on real OS threads under the baton scheduler; oracle = every call returns the value it returns when its thread runs alone, shared maps unchanged. (B) hand-over: every gradual calculator that is Send in this build (all of them in the `sync` build, which the default build runs as a child) is moved between T <= 3 threads at the step boundaries: all T^n ownership sequences, n <= 4 (quick) / 5, incl. create on one thread and drop on another; oracle = the single-thread sequence. (D) shared-access preemption: 27 jobs of two calls, all 378 unordered pairs on two real threads with the pages of the library's writable statics and of the shared Beatmap structs protected; scheduling points = thread start, call boundaries, every write to a guarded region, every read of a location some job writes; every choice vector with <= 2 preemptions, each execution in a fresh process; oracle = every call returns what it returns when its job runs alone in a fresh process, also when repeated sequentially after the concurrent run. (C) free-running: the (A) job bodies on 16 unsynchronised threads for a fixed number of rounds against the sequential table — sampling, reported separately under coverage.free_running and not part of the exhaustive claim; non-trivial = schedules with more than one thread / ownership sequences that change thread");
     ctx.assume("(A)/(B) switch threads at public call boundaries only; that is complete iff two calculations share no mutable location, which (D) checks on this very build: every access to the library's writable statics (found in the binary's symbol table) and to the shared Beatmap structs is intercepted, and where a job writes such a location all schedules with <= 2 preemptions at those accesses are explored. Outside every exhaustive part: heap state reached only through a pointer stored in a static, weak-memory reorderings; (C) samples those");
 
     let world = World::new(Box::leak(maps().into_boxed_slice()));
